@@ -14,7 +14,6 @@ package http2_test
 import (
 	"bytes"
 	"fmt"
-	"io"
 	"testing"
 	"testing/synctest"
 
@@ -355,6 +354,7 @@ func c10cliRunCase(w *vx.W, t testing.TB, cs c09cliCase, mode c10sMode) (res c10
 	step := func(ctx string) {
 		synctest.Wait()
 		for _, f := range env.drain() {
+			res.trace = append(res.trace, f.String())
 			onFrame(f, ctx)
 		}
 		if env.wireErr != "" {
@@ -733,7 +733,6 @@ func c10cliRunCase(w *vx.W, t testing.TB, cs c09cliCase, mode c10sMode) (res c10
 	for _, r := range env.reqs {
 		res.bytesDelivered += len(r.readBuf)
 	}
-	_ = io.EOF
 	return
 }
 
@@ -745,6 +744,9 @@ func c10cliCheck(c *vx.Ctx, mode c10sMode) func(w *vx.W, cs c09cliCase) {
 			res, herr = c10cliRunCase(w, t, cs, mode)
 			return herr
 		})
+		c.AddStates(1)
+		c.AddTraces(1)
+		c.AddTransitions(int64(res.applied))
 		if res.dataSent > 0 {
 			w.Nontrivial()
 		}
@@ -811,7 +813,7 @@ func c10cliRunPartList(c *vx.Ctx, mode c10sMode, parts []c10cliPart) {
 	for _, p := range parts {
 		p := p
 		completed := 0
-		vx.Enumerate(c, p.name, vx.Opts{Serial: true},
+		vx.Enumerate(c, p.name, vx.Opts{Serial: true, Crumb: true},
 			func(yield func(c09cliCase) bool) {
 				c10cGen(p.cfg, p.seed, p.alpha, p.depth, mode.enforce, func(d int) { completed = d }, yield)
 			},
